@@ -445,6 +445,21 @@ func isStreamDecoder(d string) bool { return d == "decode" || d == "make" }
 type readerWrap struct {
 	r        io.Reader
 	buffered func() int
+	// direct != nil: the reader does not go through the link at all (a concrete standard
+	// library reader over the deliverable bytes); it returns the bytes consumed so far
+	direct func() int
+}
+
+// consumed is the number of stream bytes the code under test has taken so far.
+func (rw readerWrap) consumed(l *simnet.Link) int {
+	if rw.direct != nil {
+		return rw.direct()
+	}
+	n := l.Pos + l.SeekPast
+	if rw.buffered != nil {
+		n -= rw.buffered()
+	}
+	return n
 }
 
 func wrapReader(kind string, l *simnet.Link) readerWrap {
@@ -459,6 +474,27 @@ func wrapReader(kind string, l *simnet.Link) readerWrap {
 	case "fat":
 		// every optional capability at once: Seeker, ReaderAt, WriterTo, ByteScanner
 		return readerWrap{r: simnet.NewFatLink(l)}
+	case "limited":
+		// the concrete type *io.LimitedReader with room to spare: code that inspects or
+		// adjusts the limit of the reader it was given meets it here
+		return readerWrap{r: &io.LimitedReader{R: struct{ io.Reader }{l}, N: int64(len(l.Data)) + 1<<20}}
+	case "limited-tight":
+		// the limit runs out exactly where the stream would end or fail
+		return readerWrap{r: &io.LimitedReader{R: struct{ io.Reader }{l}, N: int64(l.Deliverable())}}
+	case "bytesreader", "bytesbuffer":
+		// concrete standard-library readers (Len(), ReadByte, WriteTo, Seek ...) over what
+		// the link would deliver; they cannot fail, so scenarios whose fault is an error
+		// value rather than an end of stream use the plain reader
+		if l.Fault == nil || l.Fault.Err == "eof" {
+			data := l.Data[:l.Deliverable()]
+			total := len(data)
+			if kind == "bytesreader" {
+				br := bytes.NewReader(data)
+				return readerWrap{r: br, direct: func() int { return total - br.Len() }}
+			}
+			bb := bytes.NewBuffer(append([]byte(nil), data...))
+			return readerWrap{r: bb, direct: func() int { return total - bb.Len() }}
+		}
 	}
 	return readerWrap{r: struct{ io.Reader }{l}}
 }
@@ -476,10 +512,19 @@ func (n *Node) decode(b *Build, typ, decoder string, data []byte, sched *simnet.
 	alloc, steps := budgetsFor(b.Schema, budgetLen)
 	simrt.SetMapOrder(simrt.OrderCanonical, 0)
 	defer simrt.SetMapOrder(simrt.OrderNative, 0)
+	// a receiver that was used before (n.prefill is set by the scenario's exec function)
+	newRec := func() reg.Record {
+		rec := t.New()
+		if n.prefill != nil {
+			pre := append([]byte(nil), n.prefill...)
+			safeCall(0, 0, func() { _ = rec.UnmarshalBebop(pre) })
+		}
+		return rec
+	}
 	switch decoder {
 	case "unmarshal":
 		buf := n.guard.place(data)
-		rec := t.New()
+		rec := newRec()
 		out.Call = safeCall(alloc, steps, func() { out.Err = rec.UnmarshalBebop(buf) })
 		out.Rec = rec
 	case "mustunmarshal":
@@ -517,15 +562,16 @@ func (n *Node) decode(b *Build, typ, decoder string, data []byte, sched *simnet.
 		out.Link = simnet.NewLink(data, sc, rf)
 		rw := wrapReader(reader, out.Link)
 		if decoder == "decode" {
-			rec := t.New()
+			rec := newRec()
 			out.Call = safeCall(alloc, steps, func() { out.Err = rec.DecodeBebop(rw.r) })
 			out.Rec = rec
 		} else {
 			out.Call = safeCall(alloc, steps, func() { out.Rec, out.Err = t.Make(rw.r) })
 		}
-		out.Consumed = out.Link.Pos
-		if rw.buffered != nil {
-			out.Consumed -= rw.buffered()
+		out.Consumed = rw.consumed(out.Link)
+		if rw.direct != nil {
+			// keep the link's own account in step for the oracles that read it
+			out.Link.Pos = out.Consumed
 		}
 	default:
 		out.Err = fmt.Errorf("unknown decoder %q", decoder)
